@@ -76,7 +76,10 @@ struct g_pe_log { int n; int exp; size_t rings; size_t rs_k; secp256k1_gej *pubs
 static void secp256k1_rangeproof_pub_expand(secp256k1_gej *pubs, int exp, size_t *rsizes, size_t rings, const secp256k1_ge* genp)
 __CPROVER_requires(exp < 19)
 __CPROVER_requires(__CPROVER_r_ok(rsizes, rings * sizeof(size_t)) && __CPROVER_r_ok(genp, sizeof(*genp)) && rp_ge_ok(genp))
+#ifndef RP_CONTRACTS_NO_SUM   /* units with loop contracts: no function calls in DFCC clauses (rp_sum's locals fail the frame check there);
+                                 the capacity obligation is discharged by the units without loop contracts */
 __CPROVER_requires(rings > 32 || __CPROVER_rw_ok(pubs, rp_sum(rsizes, rings) * sizeof(secp256k1_gej)))
+#endif
 __CPROVER_assigns(__CPROVER_object_whole(pubs), g_pe)
 __CPROVER_ensures(g_pe_n == __CPROVER_old(g_pe_n) + 1)
 __CPROVER_ensures(__CPROVER_old(g_pe_n) == 0
@@ -115,8 +118,10 @@ __CPROVER_requires(hash_ctx != NULL && len <= 10)
 __CPROVER_requires(__CPROVER_r_ok(nonce, 32) && __CPROVER_r_ok(proof, len) && __CPROVER_r_ok(commit, sizeof(*commit)) && __CPROVER_r_ok(genp, sizeof(*genp)))
 __CPROVER_requires(__CPROVER_r_ok(rsizes, rings * sizeof(size_t)))
 /* what the body touches: sec[0..rings), s[0..sum rsizes), message[0 .. 128*(rings-1) + 32*rsizes[rings-1]) */
+#ifndef RP_CONTRACTS_NO_SUM
 __CPROVER_requires(rings == 0 || rings > 32 || (__CPROVER_w_ok(sec, rings * sizeof(secp256k1_scalar)) && __CPROVER_w_ok(s, rp_sum(rsizes, rings) * sizeof(secp256k1_scalar)) &&
                    (message == NULL || __CPROVER_rw_ok(message, 128 * (rings - 1) + 32 * rsizes[rings - 1]))))
+#endif
 __CPROVER_assigns(__CPROVER_object_whole(sec), __CPROVER_object_whole(s))
 __CPROVER_assigns(message != NULL: __CPROVER_object_whole(message))
 __CPROVER_assigns(g_gr)
